@@ -343,6 +343,7 @@ theorem qualified_predicate_total (cfg : Cfg) (s : Store) (now : Nat) (op : Op) 
   obtain ⟨c, ns, typ, he, _⟩ := spec_err_shape cfg s now op e h
   subst he
   unfold Err.isConflictQ
+  simp only [Gen.Store.conflictChecksBothQualifiers, Bool.not_true, Bool.false_eq_true, if_false]
   by_cases hc : c.isConflict = true
   · simp only [hc, Bool.not_true, if_true]
     (repeat' split) <;> simp_all
@@ -354,7 +355,7 @@ theorem qualified_predicate_sound (e : Err) (ns typ qns qtyp : String)
     (hr : e.res = some (ns, typ)) (hc : e.ctor.isConflict = true) :
     e.isConflictQ qns qtyp = some (decide ((qns = "" ∨ qns = ns) ∧ (qtyp = "" ∨ qtyp = typ))) := by
   unfold Err.isConflictQ
-  simp only [hc, hr, Bool.not_true]
+  simp only [Gen.Store.conflictChecksBothQualifiers, hc, hr, Bool.not_true]
   have c' : (qns = ns) = (ns = qns) := propext ⟨Eq.symm, Eq.symm⟩
   have d' : (qtyp = typ) = (typ = qtyp) := propext ⟨Eq.symm, Eq.symm⟩
   by_cases a : qns = "" <;> by_cases b : qtyp = "" <;> by_cases c : ns = qns <;>
